@@ -210,6 +210,27 @@ def r12_2(run, model):
     run.ob("R12.2", "file()|FILE node closed", "MySyntaxKind::FILE" in closes and "p.close(" in closes, site(FILE, f.node["sp"]), "file() opens and closes a FILE node")
 
 
+def r12_13(run, model, mir):
+    run.rule("R12.13", "a rendered position is the position of the range: `LineIndex::line_col` answers in UTF-8 byte columns, so a function "
+                       "that renders what it returned never hands it to `LineIndex::to_utf8` (the conversion *from* wide columns) - converting "
+                       "the wrong way moves the column right by the extra bytes of every non-ASCII character in front of it, past the end of "
+                       "the line; expected count zero, the line_col calls seen are the control")
+    lc = [c for c in mir.calls if callee_tail(c["callee"]) == "line_col" and "LineIndex" in c["callee"] and "/tests/" not in c["file"]]
+    bad = 0
+    for c in lc:
+        same = [d for d in mir.calls if d["file"] == c["file"] and callee_tail(d["callee"]) == "to_utf8" and "LineIndex" in d["callee"]]
+        fns = {re.sub(r"(::\{closure#\d+\})+$", "", c["caller"])}
+        # the conversion may sit in a helper of the same file that is handed the LineCol
+        for d in same:
+            bad += 1
+            run.ob("R12.13", f"{c['file'].split('/')[-1]}|a byte column is not converted as if it were a wide column", False, site(c["file"], [d["line"]]),
+                   f"{d['caller']} calls LineIndex::to_utf8 in a file that renders LineIndex::line_col results",
+                   witness="a syntax error after `let s = \"h\u00e9llo w\u00f6rld\";` on the same line is reported at a column past the end of the line (and past the end of the file on its last line)")
+    if not bad:
+        run.ob("R12.13", "rendered positions come from line_col unconverted", True, None, f"{len(lc)} line_col calls, no wide->byte conversion beside them")
+    run.floor("LineIndex::line_col calls", len(lc), 2)
+
+
 def r12_7(run, model):
     run.rule("R12.7", "token ranges tile the text: every Token the lexer builds takes its text from `slice()` and its range from "
                       "`range_from_span(span())` of the same match (all construction sites agree, error tokens included), and range_from_span "
@@ -542,6 +563,7 @@ def run(run, model):
     run.try_rule(c04.r04_18, model)
     # parsing terminates normally on every input: the panic sites reachable from parser::parse are ledgered (shared with C20 R20.1)
     run.try_rule(r12_12, model, mir)
+    run.try_rule(r12_13, model, mir)
     # R12.3: no entropy in lexer / parser
     run.rule("R12.3", "lexing and parsing are deterministic: no hash-ordered iteration and no entropy source in the lexer/parser/cst/ast crates")
     bad = [c for c in mir.calls if c["file"].startswith(("crates/lexer/src", "crates/parser/src")) and re.search(r"std::collections::Hash(Map|Set)|RandomState|SystemTime|Instant::now|std::env::", c["callee"])]
